@@ -110,6 +110,86 @@ def deps(v0: int, v1: int, v2: int, z: int, g: int, p1_1: int, p2_1: int, p1_2: 
     return _graph_ok(d, "after second request")
 
 
+def _refobs(m, cs):
+    """(held element keys per cells, element nodes of the reference graph, names of the references precedents() lists per held ()-element)."""
+    held = {nm: set(dict(c).keys()) for nm, c in cs.items()}
+    impls = {c._impl: nm for nm, c in cs.items()}
+    rnodes = set((impls.get(n[0], "?"), n[1]) for n in m._impl.refgraph.nodes if isinstance(n, tuple))
+    names = {}
+    for nm, c in cs.items():
+        if () in held[nm]:
+            names[nm] = sorted(getattr(n.obj, "name", "?") for n in c.precedents() if type(n).__name__ == "ReferenceNode")
+    return held, rnodes, names
+
+
+def _refs_ok(m, cs, reads, what):
+    """reads: cells name -> names of the references its formula read by attribute path in the computation holding its value."""
+    with notrace():
+        held, rnodes, names = _refobs(m, cs)
+        heldset = set((nm, k) for nm in held for k in held[nm])
+        stale = sorted(rnodes - heldset)
+        okheld = set(nm for nm in held if held[nm]) == set(reads)
+        oknames = all([x for x in names.get(nm, []) if x in ("x", "y")] == sorted(reads[nm]) for nm in reads)
+    if not check(okheld, "held elements as expected (%s)" % what, lambda: (held, sorted(reads))):
+        return False
+    if not check(not stale, "reference graph mentions held elements only (%s)" % what, lambda: stale):
+        return False
+    return check(oknames, "precedents() lists exactly the references read (%s)" % what, lambda: (names, reads))
+
+
+@harness
+def refpaths(x: int, y: int, x2: int, y2: int, lvl: int, ed: int) -> bool:
+    """Attribute-path reads (P.x, Q.y), the second one only on a branch decided by a callee: after an edit of P.x the reference
+    graph mentions no cleared element, and after the re-evaluation precedents() lists exactly what THIS computation read, so a
+    later edit of Q.y discards B exactly when B read it."""
+    lvl, ed = pick(lvl, 0, 1), pick(ed, 0, 1)
+    label("B reads Q.y iff %s() > 0 ; %s" % ("A" if lvl == 0 else "Mid", "edit P.x" if ed == 0 else "clear A"))
+    with notrace():
+        m = new_model("RP")
+        S = m.new_space("S")
+        P, Q = S.new_space("P"), S.new_space("Q")
+        P.x = x
+        Q.y = y
+        cs = {"A": S.new_cells("A", formula="lambda: P.x"), "Mid": S.new_cells("Mid", formula="lambda: A()"),
+              "B": S.new_cells("B", formula="lambda: (Q.y if %s() > 0 else 0)" % ("A" if lvl == 0 else "Mid"))}
+    B = cs["B"]
+
+    def expect(xv):
+        rd = {"A": ["x"], "B": ["y"] if xv > 0 else []}
+        if lvl == 1:
+            rd["Mid"] = []
+        return rd
+    r = call(B)
+    if not check(r[0] == "ok" and r[1] == (y if x > 0 else 0), "first request", lambda: r):
+        return False
+    if not _refs_ok(m, cs, expect(x), "after first request"):
+        return False
+    if ed == 0:
+        label("P.x = x2")
+        P.x = x2
+        cur = x2
+    else:
+        label("A.clear()")
+        cs["A"].clear()
+        cur = x
+    if not _refs_ok(m, cs, {}, "after the edit"):
+        return False
+    r = call(B)
+    if not check(r[0] == "ok" and r[1] == (y if cur > 0 else 0), "second request", lambda: r):
+        return False
+    if not _refs_ok(m, cs, expect(cur), "after second request"):
+        return False
+    label("Q.y = y2")
+    Q.y = y2
+    rd = expect(cur)
+    if cur > 0:
+        del rd["B"]
+    if not _refs_ok(m, cs, rd, "after the edit of Q.y"):
+        return False
+    r = call(B)
+    return check(r[0] == "ok" and r[1] == (y2 if cur > 0 else 0), "third request", lambda: r)
+
+
 _NAT = dict(v0=1, v1=2, v2=3, z=4, g=5, p1_1=0, p2_1=-1, p1_2=1, p2_2=0, T1=False, T2=True)
 
 
@@ -129,5 +209,11 @@ QUERIES = [
           bounds=lambda tier: {"cells": N, "t_max": 1, "uncached_masks": MMAX + 1, "edits_between_requests": EDITS, "requests": 2, "dag": "pointers symbolic"},
           outside=["precedents() of an input element (raises AttributeError on a cells whose formula never ran: modelx defect outside the property)",
                    "dependencies through ItemSpaces", "N > 3", "failed evaluations (graph == held after a failure is asserted in C05)"]),
+    Query("refpaths", refpaths,
+          pre=["0 <= lvl <= 1", "0 <= ed <= 1"],
+          partitions=lambda tier, seed: product(lvl=[0, 1], ed=[0, 1]),
+          natives=[dict(x=1, y=10, x2=-1, y2=99, lvl=l, ed=e) for l in (0, 1) for e in (0, 1)] + [dict(x=-1, y=10, x2=2, y2=99, lvl=1, ed=0)],
+          bounds=lambda tier: {"cells": 3, "references": "P.x, Q.y read by attribute path, all four values symbolic", "history": "request ; edit P.x / clear A ; request ; edit Q.y ; request"},
+          outside=["more than one conditional attribute-path read per formula", "attribute paths longer than two names"]),
 ]
 BUDGET = {"quick": 400, "thorough": 1200}
